@@ -46,8 +46,12 @@ func diffRange(known string, diffs []diffmatchpatch.Diff) (start, end int) {
 }
 
 func docDiff(id string, doc1 *indexedDocument, doc1Start, doc1End int, doc2 *indexedDocument, doc2Start, doc2End int) []diffmatchpatch.Diff {
-	chars1 := doc1.runes[doc1Start:doc1End]
-	chars2 := doc2.runes[doc2Start:doc2End]
+	// The diff library appends to sub-slices of its inputs (diffHalfMatchI), i.e.
+	// it writes into the backing arrays handed to it. The rune slices of corpus
+	// documents are shared by every concurrent Match call, so give the library
+	// private copies.
+	chars1 := append([]rune(nil), doc1.runes[doc1Start:doc1End]...)
+	chars2 := append([]rune(nil), doc2.runes[doc2Start:doc2End]...)
 
 	dmp := diffmatchpatch.New()
 	diffs := dmp.DiffMainRunes(chars1, chars2, false)
